@@ -34,7 +34,7 @@ pub fn t_catalogue(prop: &str) -> Option<Vec<tcommon::Scn>> {
     "C07" => Some(t_c07::scenarios()),
     "C09" => Some(t_c09::scenarios()),
     "C10" => Some(t_c10::scenarios()),
-    "C15" => Some(t_c15::c15_scenarios()),
+    "C15" => Some(t_c15::c15_scenarios().into_iter().chain(t_c06::dead_worker_scenarios()).collect()),
     "C16" => Some(t_c15::c16_scenarios()),
     "C11" => Some(t_c11::scenarios()),
     "C12" => Some(t_c12::scenarios()),
